@@ -4,7 +4,7 @@ import random
 import re
 
 from .runner import run_driver, split_blocks
-from .solverworld import run_script, loss_formula, metric_formula, addl_formula, grad_formula
+from .solverworld import run_script, loss_formula, metric_formula, addl_formula, grad_formula, addl_grad_formula
 
 KINDS = ['1d', '2d', 'spherical', 'generic', 'bundle']
 
@@ -44,7 +44,7 @@ def gen_script(rng, tier):
     kind = rng.choice(KINDS)
     n_funcs = rng.randint(1, 3)
     kw = dict(kind=kind, n_funcs=n_funcs, shared=rng.random() < 0.4, n_points=rng.randint(1, 4), vary_points=rng.random() < 0.5,
-              loss_scale=rng.choice([1.0, 1.0, 2.0 ** -40, 2.0 ** -30, 2.0 ** 23]))      # powers of two: ties and means stay exact
+              loss_scale=rng.choice([1.0, 1.0, 2.0 ** -40, 2.0 ** -30, 2.0 ** 23]), late_valid0=rng.random() < 0.5)      # powers of two: ties and means stay exact
     if kind == 'bundle':
         n_theta = rng.randint(0, 3)
         idx = rng.sample(range(n_theta), rng.randint(0, n_theta)) if n_theta else []
